@@ -254,8 +254,11 @@ def run(ck):
     rts = [e for e in mu.events("return") if e.get("const") is True]
     cur_decl = {d["var"] for d in mu.events("decl") if d.get("icall") == CUR + "current"}
     # the branch that asks the local membership predicate (a lambda over the set of characters) about the byte under the cursor
-    guards = [bl for bl in mu.blocks.values() if bl.term and bl.term.get("k") == "if" and not bl.term.get("cmp") and
-              any(r.startswith("c:lambda@") for r in (bl.term.get("leafrefs") or bl.term.get("refs") or [])) and
+    # (the predicate may be a local lambda, a functor object or a helper: some callable other than the cursor's own accessors)
+    def asks_predicate(t_):
+        rs_ = t_.get("leafrefs") or t_.get("refs") or []
+        return any(r.startswith("c:") and not r.startswith("c:" + CUR) for r in rs_)
+    guards = [bl for bl in mu.blocks.values() if bl.term and bl.term.get("k") == "if" and not bl.term.get("cmp") and asks_predicate(bl.term) and
               (("c:" + CUR + "current") in (bl.term.get("refs") or []) or any(("v:" + v) in (bl.term.get("refs") or []) for v in cur_decl))]
     ok = bool(rts) and bool(guards) and all(any(cfg.edge_dominates(mu, g.id, 1 if g.term.get("neg") else 0, e) for g in guards) for e in rts)
     ck.ob("C03-R8", "match_until/post-condition", ok, mu.loc, mu, "`return true` only under find(<byte under the cursor>): on success the cursor stands on one of the characters asked for")
